@@ -28,6 +28,9 @@ LOOKALIKE_DOCS = [
     {"1０": "fullwidth", "10": "ascii", "1٠": "arabic", "2१": "devanagari", "21": "ascii21", "１": "fw1", "1": "one"},
     {"a": list(range(100, 123)), "b": {"1０": [1, 2], "10": [3]}},
     list(range(14)),
+    # index-looking member names holding null and other falsy values (a missing member is not a null member)
+    {"a": {"0": None, "7": None, "-1": None, "1": 0, "2": False, "3": "", "4": []}, "5": None, "0": None},
+    {"0": {"0": None}, "1": [None, 0, False]},
 ]
 
 
